@@ -4534,6 +4534,9 @@ def _form_to_layout(
                 )
                 + ak._util.exception_suffix(__file__)
             )
+        elif length < len(mask):
+            # the content below is built for 'length' items only
+            mask = _index_form_to_index[form.mask](numpy.asarray(mask)[:length])
 
         content = _form_to_layout(
             form.content,
